@@ -171,6 +171,13 @@ func c05Specs(tier string) []*h.SeqSpec {
 			macro("C", "")
 			macro("D1", "d") // an image of the docker schema 2 type: its config and layers are content like any other
 			ops = append(ops, opPushBlob("C05", repo, f, "b512"))
+			// a child that had a tag of its own when the index was pushed and lost it afterwards: it stays in the top-level
+			// list as an untagged entry and is retained through the tagged index
+			ops = append(ops, h.Op{Name: "push I1 as t1, X completely as x, then move t1 to I2", Do: func(w *h.World) []h.Violation {
+				vs := gcPushMacro(w, f, repo, "I1", "t1")
+				vs = append(vs, gcPushMacro(w, f, repo, "X", "x")...)
+				return append(vs, gcPushMacro(w, f, repo, "I2", "t1")...)
+			}})
 			// fine grained: the pieces of one image as separate steps (a collection can fall between them)
 			ops = append(ops, opPushBlob("C05", repo, f, "c"), opPushBlob("C05", repo, f, "l1"))
 			ops = append(ops, h.Op{Name: "push manifest I1 as t1 (blobs must be there)", Do: func(w *h.World) []h.Violation {
